@@ -79,7 +79,7 @@ def check_C02(replay=None):
     chk.add_mc(res, "MC_ISA")
 
     # (C) sweep of the real VM
-    states = 6 if thorough else 1
+    states = 6 if thorough else 2
     nchunks = 16 if thorough else 8
     jobs = []
     for stack in (1, 0):
@@ -185,8 +185,8 @@ def check_C01(replay=None):
     thorough = chk.tier == "thorough"
     res = tlc_mc("MC_Assembler", "MC_Assembler_deep.cfg" if thorough else "MC_Assembler.cfg", workers=8, coverage=False, timeout=1500)
     chk.add_mc(res, "MC_Assembler")
-    stride = 1 if thorough else 4
-    nphase = 8 if thorough else 8
+    stride = 1
+    nphase = 8
     jobs = []
     for ph in range(nphase):
         # phases partition the field sweep: item i goes to phase i % (stride*nphase)
@@ -698,8 +698,6 @@ def check_C08(replay=None):
     vlib.build(need_cli=True)
     thorough = chk.tier == "thorough"
     d, man = _files(chk, "atomic", 0)
-    if not thorough:
-        man = man[::2]
     use_strace = _strace_ok()
     chk.extra["strace"] = use_strace
     old = bytes(range(7)) * 3
